@@ -17,7 +17,7 @@ RULE = ("alias chains over one register: bounded-exhaustive over register sizes 
 ASSUMPTIONS = ["model arithmetic on declarations (vf/meaning.py core_from_sx + Evaluator.elems)",
                "zero steps and out-of-range slices are not generated here (C14)"]
 TIERS = {"quick": {"shards": 8, "budget_s": 120}, "thorough": {"shards": 16, "budget_s": 600}}
-REQUIRE = {"consumer:whole-register-argument": 5000, "consumer:resolution-in-context": 300, "invalid-reference:consumers-observed": 1000, "chain-with-slice-counting-down": 500, "references-checked": 2000, "consumer:resolve_qubit": 2000, "consumer:fill_in_map": 2000,
+REQUIRE = {"consumer:whole-register-argument": 5000, "consumer:resolution-in-context": 300, "consumer:resolution-in-context:argument-handed-to-an-inner-macro": 100, "invalid-reference:consumers-observed": 1000, "chain-with-slice-counting-down": 500, "references-checked": 2000, "consumer:resolve_qubit": 2000, "consumer:fill_in_map": 2000,
            "consumer:used_qubits": 2000, "consumer:emulator": 1000, "consumer:pygsti": 500, "style:let": 200, "style:override": 200,
            "style:default": 200, "depth>=2": 500, "position:macro-arg": 200, "position:macro-body": 200, "position:macro-index": 200, "position:single-in-shadowing-macro": 200}
 
@@ -128,7 +128,7 @@ def build_program(n, chain, style, rng, offset=0, ov=None):
     for i in range(src_len):
         idx = val(i)
         ref = ("array_item", final, idx)
-        pos = ("top", "block", "loop", "macro-body", "macro-arg", "single", "macro-index", "single-in-shadowing-macro")[(i + offset) % 8]
+        pos = ("top", "block", "loop", "macro-body", "macro-arg", "single", "macro-index", "single-in-shadowing-macro", "macro-nested-index")[(i + offset) % 9]
         refs.append((pos, i, ref))
     macros = []
     for pos, i, ref in refs:
@@ -154,6 +154,15 @@ def build_program(n, chain, style, rng, offset=0, ov=None):
             # parameter, in the alias declarations it still means the let
             pname = rng.choice(sorted(lets)) if (lets and rng.random() < 0.6) else "k"
             macros.append(("macro", mname, pname, ("sequential_block", ("gate", "X", ("array_item", final, pname)))))
+            sec = [("gate", mname, ref[2])]
+        elif pos == "macro-nested-index":
+            # a macro hands final[k], indexed by its own parameter, on to an inner macro that has a parameter of the same
+            # name bound to another value: the k inside the argument is the caller's
+            mname = "mn%d" % i
+            pname = rng.choice(sorted(lets)) if (lets and rng.random() < 0.6) else "k"
+            other = (i + 1) % src_len
+            macros.append(("macro", mname + "i", "x", pname, ("sequential_block", ("gate", "X", "x"))))
+            macros.append(("macro", mname, pname, ("sequential_block", ("gate", mname + "i", ("array_item", final, pname), other))))
             sec = [("gate", mname, ref[2])]
         elif pos == "single-in-shadowing-macro":
             # a single-qubit alias used inside a macro one of whose parameters carries the name of the register-like
@@ -283,7 +292,7 @@ def judge(case):
             break
     # (2) fill_in_map
     o = lib.outcome(lambda: lib.fill_in_map(lib.fill_in_let(c, ov or None)))
-    has_param_index = any(s[0] == "macro" and s[1].startswith("mi") for s in prog[1:])
+    has_param_index = any(s[0] == "macro" and (s[1].startswith("mi") or s[1].startswith("mn")) for s in prog[1:])
     if o[0] == "jaqal" and has_param_index:
         info["fill_na"] = 1  # fill_in_map documents that it cannot handle parameter-dependent references
         # judge the pass on the same program without the parameter-indexed sections
@@ -349,7 +358,7 @@ def judge(case):
     if not ov:
         lets_now = {x[1]: x[2] for x in prog[1:] if x[0] == "let"}
         sections = [x for x in prog[1:] if x[0] not in sx.HEADER and x[0] != "macro"]
-        calls = [x for x in sections if x[0] == "gate" and x[1].startswith("mi")]
+        calls = [x for x in sections if x[0] == "gate" and (x[1].startswith("mi") or x[1].startswith("mn"))]
         order = [x for x in sections if x[0] == "gate" and x[1] not in ("prepare_all", "measure_all") or x[0] != "gate"]
         for call in calls:
             sec_no = order.index(call)
@@ -362,6 +371,8 @@ def judge(case):
             stm = m.body.statements[0]
             arg = list(stm.parameters.values())[0]
             pname = m.parameters[0].name
+            if call[1].startswith("mn"):
+                info["ctx_nested"] = info.get("ctx_nested", 0) + 1
             o = lib.outcome(arg.resolve_qubit, {pname: v})
             info["ctx"] = info.get("ctx", 0) + 1
             if o[0] != "ok":
@@ -540,12 +551,12 @@ def invalid_cases(rng):
 
 def strip_param_index(prog):
     hdr = [s for s in prog[1:] if s[0] in sx.HEADER]
-    macros = [s for s in prog[1:] if s[0] == "macro" and not s[1].startswith("mi")]
+    macros = [s for s in prog[1:] if s[0] == "macro" and not s[1].startswith(("mi", "mn"))]
     body = [s for s in prog[1:] if s[0] not in sx.HEADER and s[0] != "macro"]
     out = []
     for i in range(0, len(body), 3):
         sec = body[i:i + 3]
-        if len(sec) == 3 and sec[1][0] == "gate" and sec[1][1].startswith("mi"):
+        if len(sec) == 3 and sec[1][0] == "gate" and sec[1][1].startswith(("mi", "mn")):
             continue
         out.extend(sec)
     return ("circuit",) + tuple(hdr) + tuple(macros) + tuple(out)
@@ -593,6 +604,7 @@ def process(ctx, case, feats):
     rec.count("consumer:emulator", info["emu"])
     rec.count("consumer:pygsti", info["gsti"])
     rec.count("consumer:resolution-in-context", info.get("ctx", 0))
+    rec.count("consumer:resolution-in-context:argument-handed-to-an-inner-macro", info.get("ctx_nested", 0))
     rec.count("consumer:whole-register-argument", info.get("whole", 0))
     rec.count("consumer:fill_in_map-of-whole-register-argument", info.get("whole_fill", 0))
     rec.count("consumer:resolve_qubit:macros-expanded-before-lets", info.get("ml", 0))
